@@ -88,12 +88,23 @@ theorem dispatch_progress (g : Graph Tid) (wf : g.WF) (n : Nat) (hn : 0 < n) (s 
         · rw [← h']; exact hr
         · exact h')
 
+/-- one round of `skip_all_tasks` never leaves the loop waiting for nothing: if nothing is in flight
+    afterwards, everything is completed (a minimal remaining task would have been released) -/
+theorem release_progress (g : Graph Tid) (wf : g.WF) (s : State Tid) : ProgressInv g (release g s) := by
+  by_cases h0 : g.tasks.length = 0
+  · right; intro t ht
+    have : g.tasks = [] := List.eq_nil_of_length_eq_zero h0
+    rw [this] at ht; cases ht
+  · have hp := dispatch_progress g wf g.tasks.length (by omega) s
+    rcases hp with ⟨t, ht, hp⟩ | hf
+    · exact Or.inl ⟨t, ht, by rw [release_phase]; exact hp⟩
+    · exact Or.inr (fun t ht => by rw [release_phase]; exact hf t ht)
+
 theorem progress_reachable (g : Graph Tid) (wf : g.WF) (n : Nat) (hn : 0 < n) (s : State Tid)
     (hr : Reachable g n s) : ProgressInv g s := by
   induction hr with
   | init => exact dispatch_progress g wf n hn _
   | @step s s' l hrs hs ih =>
-    have hinv' := inv_step g n s s' l (inv_reachable hrs) hs
     cases l with
     | start t c =>
       obtain ⟨htm, _, _, rfl⟩ := step_start hs
@@ -104,18 +115,11 @@ theorem progress_reachable (g : Graph Tid) (wf : g.WF) (n : Nat) (hn : 0 < n) (s
     | receive t =>
       obtain ⟨htm, hq, rfl⟩ := step_receive hs
       split
-      · rename_i hab
-        apply progress_of_noRem
-        intro x _
-        split at hinv'
-        · exact hinv'.abortedNoRem (by simpa using hab) x
-        · rename_i hc; exact absurd hab hc
+      · exact release_progress g wf _
       · exact dispatch_progress g wf n hn _
     | interrupt =>
       obtain ⟨_, rfl⟩ := step_interrupt hs
-      apply progress_of_noRem
-      intro x _
-      exact hinv'.abortedNoRem rfl x
+      exact release_progress g wf _
 
 /-- Deadlock freedom: in a reachable state where not every task is completed some transition is
     enabled — a worker can pick a queued task, a running task can finish, or the main loop can
@@ -179,6 +183,10 @@ theorem dispatch_rank_le (g : Graph Tid) (s : State Tid) (n : Nat) (x : Tid) :
   · rw [h']; exact Nat.le_refl _
   · rw [h1, h2]; simp [Phase.rank]
 
+theorem release_rank_le (g : Graph Tid) (s : State Tid) (x : Tid) :
+    ((release g s).phase x).rank ≤ (s.phase x).rank := by
+  rw [release_phase]; exact dispatch_rank_le g s g.tasks.length x
+
 theorem mu_decreases (g : Graph Tid) (n : Nat) (s s' : State Tid) (l : Label Tid)
     (hs : step g n s l = some s') : mu g s' < mu g s := by
   cases l with
@@ -208,21 +216,23 @@ theorem mu_decreases (g : Graph Tid) (n : Nat) (s s' : State Tid) (l : Label Tid
       intro x; by_cases e : x = t
       · subst e; simp [hq, Phase.rank]
       · simp [e]
+    generalize hs1 : ({ s with phase := fun x => if x = t then Phase.completed else s.phase x,
+                               clock := s.clock + 1 } : State Tid) = s1
+    have hs1ab : s1.aborted = s.aborted := by subst hs1; rfl
+    have hph : ∀ x, s1.phase x = if x = t then Phase.completed else s.phase x := by
+      subst hs1; intro x; rfl
     split
-    · unfold mu; dsimp only
+    · unfold mu
+      simp only [release_aborted, hs1ab]
       have := sum_map_lt g.tasks (fun x => (s.phase x).rank)
-        (fun x => (if x = t then Phase.completed else s.phase x).rank)
-        (fun x _ => hbase x) ⟨t, htm, by simp [hq, Phase.rank]⟩
+        (fun x => ((release g s1).phase x).rank)
+        (fun x _ => Nat.le_trans (release_rank_le g s1 x) (by rw [hph x]; exact hbase x))
+        ⟨t, htm, by
+          have := dispatch_completed g s1 g.tasks.length t (by rw [hph t]; simp)
+          rw [release_phase, this]; simp [hq, Phase.rank]⟩
       omega
-    · rename_i hab
-      have hab' : s.aborted = false := by simpa using hab
-      generalize hs1 : ({ s with phase := fun x => if x = t then Phase.completed else s.phase x,
-                                 clock := s.clock + 1 } : State Tid) = s1
-      have hs1ab : s1.aborted = false := by subst hs1; exact hab'
-      have hph : ∀ x, s1.phase x = if x = t then Phase.completed else s.phase x := by
-        subst hs1; intro x; rfl
-      unfold mu
-      simp only [dispatch_aborted, hs1ab, hab']
+    · unfold mu
+      simp only [dispatch_aborted, hs1ab]
       have := sum_map_lt g.tasks (fun x => (s.phase x).rank)
         (fun x => ((dispatch g s1 n).phase x).rank)
         (fun x _ => Nat.le_trans (dispatch_rank_le g s1 n x) (by rw [hph x]; exact hbase x))
@@ -232,13 +242,11 @@ theorem mu_decreases (g : Graph Tid) (n : Nat) (s s' : State Tid) (l : Label Tid
       omega
   | interrupt =>
     obtain ⟨hab, rfl⟩ := step_interrupt hs
-    unfold mu; dsimp only
+    unfold mu
     have := sum_map_le g.tasks (fun x => (s.phase x).rank)
-      (fun x => (if s.phase x = .remaining then Phase.queued else s.phase x).rank)
-      (by intro x _; by_cases e : s.phase x = .remaining
-          · simp [e, Phase.rank]
-          · simp [e])
-    simp only [hab]
+      (fun x => ((release g { s with aborted := true, clock := s.clock + 1 }).phase x).rank)
+      (fun x _ => release_rank_le g _ x)
+    simp only [release_aborted, hab]
     simp
     omega
 
